@@ -107,6 +107,18 @@ def build():
             n += 1
             if n >= 40:
                 break
+    # ---- appended after round 1 (ids stay stable): separators in formats whose exponent digits use another radix than
+    # the mantissa (found by the seed-7 run of C11: the exponent's separator look-ahead used the mantissa radix)
+    def add2(name, calls, req, tags):
+        F.append({"id": len(F), "name": name, "calls": [list(c) for c in calls], "req": sorted(set(req)), "types": "core", "tags": list(tags)})
+    SEP = ("digit_separator", 95)
+    for (r, b, xr) in ((4, 2, 10), (8, 2, 10), (16, 2, 10), (16, 4, 4), (32, 2, 10)):
+        base = [("mantissa_radix", r), ("exponent_base", b), ("exponent_radix", xr), SEP]
+        add2("sepmix%d_%d_x%d_i" % (r, b, xr), base + [("internal_digit_separator", True)], ["format", "pow2"], ["sep", "mixedsep", "uniform"])
+        add2("sepmix%d_%d_x%d_exp_ilt" % (r, b, xr), base + [("exponent_internal_digit_separator", True), ("exponent_leading_digit_separator", True),
+             ("exponent_trailing_digit_separator", True)], ["format", "pow2"], ["sep", "mixedsep", "component"])
+        add2("sepmix%d_%d_x%d_ic" % (r, b, xr), base + [("internal_digit_separator", True), ("consecutive_digit_separator", True)], ["format", "pow2"],
+             ["sep", "mixedsep", "uniform"])
     return F
 
 if __name__ == "__main__":
